@@ -51,11 +51,17 @@ def _dict_literals(fn):
 
 def _lookup(expr, lits):
     """expr is D[E] or D.get(E[, default]) on a literal dict -> (Dict, E, default_or_None, strict)"""
-    if isinstance(expr, ast.Subscript) and isinstance(expr.value, ast.Name) and expr.value.id in lits:
-        return lits[expr.value.id], expr.slice, None, True
-    if isinstance(expr, ast.Call) and isinstance(expr.func, ast.Attribute) and expr.func.attr == "get" and isinstance(expr.func.value, ast.Name) \
-            and expr.func.value.id in lits and 1 <= len(expr.args) <= 2 and not expr.keywords:
-        return lits[expr.func.value.id], expr.args[0], (expr.args[1] if len(expr.args) == 2 else ast.Constant(value=None)), False
+    def lit(n):
+        if isinstance(n, ast.Name) and n.id in lits:
+            return lits[n.id]
+        if isinstance(n, ast.Dict) and n.keys and all(isinstance(k, ast.Constant) for k in n.keys):
+            return n            # a dict display used in place (e.g. a substituted class-level constant)
+        return None
+    if isinstance(expr, ast.Subscript) and lit(expr.value) is not None:
+        return lit(expr.value), expr.slice, None, True
+    if isinstance(expr, ast.Call) and isinstance(expr.func, ast.Attribute) and expr.func.attr == "get" and lit(expr.func.value) is not None \
+            and 1 <= len(expr.args) <= 2 and not expr.keywords:
+        return lit(expr.func.value), expr.args[0], (expr.args[1] if len(expr.args) == 2 else ast.Constant(value=None)), False
     return None
 
 
@@ -81,7 +87,48 @@ class _Desugar(ast.NodeTransformer):
         return n
 
     # ---- statements --------------------------------------------------------------------------------------
+    @staticmethod
+    def _append_loop(init, loop):
+        """`L = []` followed by `for x in S: [if p:] L.append(e)` (possibly nested fors/ifs, nothing else) -> the list comprehension, else None"""
+        if not (isinstance(init, ast.Assign) and len(init.targets) == 1 and isinstance(init.targets[0], ast.Name) and isinstance(init.value, ast.List) and not init.value.elts):
+            return None
+        L = init.targets[0].id
+        gens = []
+        node = loop
+        while True:
+            if isinstance(node, ast.For) and not node.orelse and len(node.body) == 1:
+                gens.append(ast.comprehension(target=node.target, iter=node.iter, ifs=[], is_async=0))
+                node = node.body[0]
+            elif isinstance(node, ast.If) and not node.orelse and len(node.body) == 1 and gens:
+                gens[-1].ifs.append(node.test)
+                node = node.body[0]
+            else:
+                break
+        if not gens or not (isinstance(node, ast.Expr) and isinstance(node.value, ast.Call) and isinstance(node.value.func, ast.Attribute) and node.value.func.attr == "append"
+                            and isinstance(node.value.func.value, ast.Name) and node.value.func.value.id == L and len(node.value.args) == 1 and not node.value.keywords):
+            return None
+        # the list under construction must not be read inside the loop
+        for g in gens:
+            for x in list(ast.walk(g.iter)) + [y for c in g.ifs for y in ast.walk(c)]:
+                if isinstance(x, ast.Name) and x.id == L:
+                    return None
+        if any(isinstance(x, ast.Name) and x.id == L for x in ast.walk(node.value.args[0])):
+            return None
+        return _loc(ast.Assign(targets=[ast.Name(id=L, ctx=ast.Store())], value=ast.ListComp(elt=node.value.args[0], generators=gens)), init)
+
     def _stmts(self, body):
+        merged = []
+        i = 0
+        while i < len(body):
+            if i + 1 < len(body) and isinstance(body[i + 1], ast.For):
+                comp = self._append_loop(body[i], body[i + 1])
+                if comp is not None:
+                    merged.append(comp)
+                    i += 2
+                    continue
+            merged.append(body[i])
+            i += 1
+        body = merged
         out = []
         for st in body:
             r = self.visit(st)
@@ -112,6 +159,34 @@ class _Desugar(ast.NodeTransformer):
         return n
 
     def visit_Assign(self, st):
+        if len(st.targets) == 1 and isinstance(st.targets[0], (ast.Tuple, ast.List)) and isinstance(st.value, (ast.Tuple, ast.List)) \
+                and len(st.targets[0].elts) == len(st.value.elts) and len(st.value.elts) > 1 \
+                and not any(isinstance(e, ast.Starred) for e in st.targets[0].elts + st.value.elts):
+            # a, b = x, y  ->  a = x; b = y   (through temporaries when a later value reads what an earlier target writes)
+            tg, vs = st.targets[0].elts, st.value.elts
+            def reads(n):
+                return {ast.unparse(x) for x in ast.walk(n) if isinstance(x, (ast.Name, ast.Attribute, ast.Subscript))}
+            conflict = False
+            for i in range(len(tg)):
+                w = ast.unparse(tg[i])
+                for j in range(i + 1, len(vs)):
+                    if any(r == w or r.startswith(w + ".") or r.startswith(w + "[") for r in reads(vs[j])) or any(isinstance(x, ast.Call) for x in ast.walk(vs[j])):
+                        conflict = True
+            out = []
+            if conflict:
+                tmps = ["_unpack%d_%d" % (getattr(st, "lineno", 0), i) for i in range(len(vs))]
+                for t_, v_ in zip(tmps, vs):
+                    out.append(_loc(ast.Assign(targets=[ast.Name(id=t_, ctx=ast.Store())], value=v_), st))
+                for t_, g_ in zip(tmps, tg):
+                    out.append(_loc(ast.Assign(targets=[g_], value=ast.Name(id=t_, ctx=ast.Load())), st))
+            else:
+                for g_, v_ in zip(tg, vs):
+                    out.append(_loc(ast.Assign(targets=[g_], value=v_), st))
+            res = []
+            for o in out:
+                r = self.visit(o)
+                res += r if isinstance(r, list) else [r]
+            return res
         if len(st.targets) == 1:
             v = st.value
             tgt = st.targets[0]
@@ -197,11 +272,448 @@ class _Desugar(ast.NodeTransformer):
         return None
 
 
+def _bound_method_locals(fn):
+    """`f = <path>.m` (assigned once, used only as the function of calls): the calls become `<path>.m(...)` and the assignment goes"""
+    cnt, val, stmt = {}, {}, {}
+    for x in ast.walk(fn):
+        if isinstance(x, ast.Name) and isinstance(x.ctx, (ast.Store, ast.Del)):
+            cnt[x.id] = cnt.get(x.id, 0) + 1
+        if isinstance(x, ast.Assign) and len(x.targets) == 1 and isinstance(x.targets[0], ast.Name) and isinstance(x.value, ast.Attribute):
+            base = x.value
+            while isinstance(base, ast.Attribute):
+                base = base.value
+            if isinstance(base, ast.Name):
+                val[x.targets[0].id] = x.value
+                stmt[x.targets[0].id] = x
+    params = {a.arg for a in fn.args.args}
+    cands = {k for k in val if cnt.get(k) == 1 and k not in params}
+    if not cands:
+        return
+    funcs = {id(x.func) for x in ast.walk(fn) if isinstance(x, ast.Call) and isinstance(x.func, ast.Name)}
+    for x in ast.walk(fn):
+        if isinstance(x, ast.Name) and isinstance(x.ctx, ast.Load) and x.id in cands and id(x) not in funcs:
+            cands.discard(x.id)         # also used as a value
+    # lambdas / nested functions capture by name: leave those alone
+    for x in ast.walk(fn):
+        if isinstance(x, (ast.Lambda, ast.FunctionDef)) and x is not fn:
+            for y in ast.walk(x):
+                if isinstance(y, ast.Name) and y.id in cands:
+                    cands.discard(y.id)
+    if not cands:
+        return
+
+    class T(ast.NodeTransformer):
+        def visit_Call(self, n):
+            self.generic_visit(n)
+            if isinstance(n.func, ast.Name) and n.func.id in cands:
+                n.func = _loc(copy.deepcopy(val[n.func.id]), n.func)
+            return n
+
+        def visit_Assign(self, n):
+            if any(n is stmt[k] for k in cands):
+                return ast.copy_location(ast.Pass(), n)
+            self.generic_visit(n)
+            return n
+    T().visit(fn)
+
+
+def _compose_comprehensions(fn):
+    """`L = [g(s) for s in S if q(s)]` ... `[f(c) for c in L if p(c)]`  ->  `[f(g(s)) for s in S if q(s) if p(g(s))]`: a comprehension over a local list that is
+    itself a comprehension is read through (the intermediate list stays if it is used elsewhere)"""
+    for _ in range(3):
+        cnt, val, stmt = {}, {}, {}
+        for x in ast.walk(fn):
+            if isinstance(x, ast.Name) and isinstance(x.ctx, (ast.Store, ast.Del)):
+                cnt[x.id] = cnt.get(x.id, 0) + 1
+            if isinstance(x, ast.Assign) and len(x.targets) == 1 and isinstance(x.targets[0], ast.Name) and isinstance(x.value, ast.ListComp) \
+                    and all(isinstance(g.target, ast.Name) for g in x.value.generators):
+                val[x.targets[0].id] = x.value
+                stmt[x.targets[0].id] = x
+        params = {a.arg for a in fn.args.args}
+        table = {k: v for k, v in val.items() if cnt.get(k) == 1 and k not in params}
+        # mutated lists are not pure pipelines
+        for x in ast.walk(fn):
+            if isinstance(x, ast.Call) and isinstance(x.func, ast.Attribute) and isinstance(x.func.value, ast.Name) and x.func.value.id in table and x.func.attr in MUTATORS:
+                table.pop(x.func.value.id, None)
+        if not table:
+            return
+        changed = False
+        for c in [x for x in ast.walk(fn) if isinstance(x, (ast.ListComp, ast.GeneratorExp, ast.SetComp))]:
+            for gi, g in enumerate(c.generators):
+                if isinstance(g.iter, ast.Name) and g.iter.id in table and isinstance(g.target, ast.Name) and table[g.iter.id] is not c:
+                    inner = copy.deepcopy(table[g.iter.id])
+                    inner_vars = {gg.target.id for gg in inner.generators}
+                    outer_names = {y.id for y in ast.walk(c) if isinstance(y, ast.Name)} - {g.iter.id}
+                    if inner_vars & (outer_names - {g.target.id}):
+                        continue
+                    mapping = {g.target.id: inner.elt}
+                    rest = c.generators[gi + 1:]
+                    new_ifs = [_NameSubst(mapping).visit(copy.deepcopy(t)) for t in g.ifs]
+                    inner.generators[-1].ifs += new_ifs
+                    for r in rest:
+                        r.iter = _NameSubst(mapping).visit(r.iter)
+                        r.ifs = [_NameSubst(mapping).visit(t) for t in r.ifs]
+                    c.elt = _NameSubst(mapping).visit(c.elt)
+                    c.generators = c.generators[:gi] + inner.generators + rest
+                    ast.fix_missing_locations(c)
+                    changed = True
+                    break
+        # drop intermediates that are no longer read
+        used = {x.id for x in ast.walk(fn) if isinstance(x, ast.Name) and isinstance(x.ctx, ast.Load)}
+        dead = [stmt[k] for k in table if k not in used]
+        if dead:
+            class Drop(ast.NodeTransformer):
+                def visit_Assign(self, n):
+                    return ast.copy_location(ast.Pass(), n) if any(n is d for d in dead) else n
+            Drop().visit(fn)
+        if not changed:
+            return
+
+
 def desugar_function(fn):
     """rewrite fn.body in place; returns True if something changed"""
     before = ast.dump(fn)
+    _bound_method_locals(fn)
+    _compose_comprehensions(fn)
     lits = _dict_literals(fn)
     d = _Desugar(lits)
     fn.body = d._stmts(fn.body)
     ast.fix_missing_locations(fn)
     return ast.dump(fn) != before
+
+
+# =====================================================================================================================
+# program-level normal forms
+# =====================================================================================================================
+MUTATORS = {"append", "update", "pop", "insert", "remove", "clear", "extend", "setdefault", "sort", "reverse", "add", "discard", "popitem"}
+
+
+def _is_literal(node):
+    try:
+        ast.literal_eval(node)
+        return True
+    except Exception:
+        return False
+
+
+def _class_constants(P):
+    """class name -> {NAME: literal node} for class-level `NAME = <literal>` never written or mutated anywhere in the package"""
+    cand = {}
+    for ci in P.classes.values():
+        for st in ci.node.body:
+            if isinstance(st, ast.Assign) and len(st.targets) == 1 and isinstance(st.targets[0], ast.Name) and _is_literal(st.value) \
+                    and isinstance(st.value, (ast.Dict, ast.List, ast.Tuple, ast.Set, ast.Constant)):
+                cand.setdefault(ci.name, {})[st.targets[0].id] = st.value
+    names = {n for d in cand.values() for n in d}
+    if not names:
+        return {}
+    dirty = set()
+    for m in P.modules.values():
+        for n in ast.walk(m.tree):
+            if isinstance(n, ast.Attribute) and n.attr in names:
+                if isinstance(n.ctx, (ast.Store, ast.Del)):
+                    dirty.add(n.attr)
+            if isinstance(n, ast.Subscript) and isinstance(n.ctx, (ast.Store, ast.Del)) and isinstance(n.value, ast.Attribute) and n.value.attr in names:
+                dirty.add(n.value.attr)
+            if isinstance(n, ast.Call) and isinstance(n.func, ast.Attribute) and n.func.attr in MUTATORS and isinstance(n.func.value, ast.Attribute) and n.func.value.attr in names:
+                dirty.add(n.func.value.attr)
+            if isinstance(n, ast.AugAssign) and isinstance(n.target, ast.Attribute) and n.target.attr in names:
+                dirty.add(n.target.attr)
+    return {c: {k: v for k, v in d.items() if k not in dirty} for c, d in cand.items()}
+
+
+class _SelfConst(ast.NodeTransformer):
+    def __init__(self, table):
+        self.table = table
+        self.changed = False
+
+    def visit_Attribute(self, n):
+        self.generic_visit(n)
+        if isinstance(n.ctx, ast.Load) and isinstance(n.value, ast.Name) and n.value.id in ("self", "cls") and n.attr in self.table:
+            self.changed = True
+            return _loc(copy.deepcopy(self.table[n.attr]), n)
+        return n
+
+    def visit_Call(self, n):
+        self.generic_visit(n)
+        # getattr(self, "name") -> self.name
+        if isinstance(n.func, ast.Name) and n.func.id == "getattr" and len(n.args) == 2 and not n.keywords and isinstance(n.args[1], ast.Constant) \
+                and isinstance(n.args[1].value, str) and n.args[1].value.isidentifier():
+            self.changed = True
+            return ast.copy_location(ast.Attribute(value=n.args[0], attr=n.args[1].value, ctx=ast.Load()), n)
+        return n
+
+
+class _NameSubst(ast.NodeTransformer):
+    def __init__(self, mapping):
+        self.mapping = mapping
+
+    def visit_Name(self, n):
+        if isinstance(n.ctx, ast.Load) and n.id in self.mapping:
+            return _loc(copy.deepcopy(self.mapping[n.id]), n)
+        return n
+
+    def visit_Lambda(self, n):
+        return n
+
+
+def _stores(nodes):
+    out = set()
+    for b in nodes:
+        for x in ast.walk(b):
+            if isinstance(x, ast.Name) and isinstance(x.ctx, (ast.Store, ast.Del)):
+                out.add(x.id)
+    return out
+
+
+def _bind(target, elt, rest):
+    """statements equivalent to `target = elt; rest`: by substitution when the bound names are not re-assigned in rest and the value is a pure access path"""
+    pairs = None
+    if isinstance(target, ast.Name):
+        pairs = [(target, elt)]
+    elif isinstance(target, (ast.Tuple, ast.List)) and isinstance(elt, (ast.Tuple, ast.List)) and len(target.elts) == len(elt.elts) and all(isinstance(t, ast.Name) for t in target.elts):
+        pairs = list(zip(target.elts, elt.elts))
+    pure = pairs is not None and all(not any(isinstance(x, (ast.Call, ast.Lambda, ast.Yield, ast.Await, ast.NamedExpr)) for x in ast.walk(v)) for _, v in pairs)
+    if pure and not ({t.id for t, _ in pairs} & _stores(rest)):
+        mapping = {t.id: v for t, v in pairs if not (isinstance(v, ast.Name) and v.id == t.id)}
+        return [_NameSubst(mapping).visit(s) for s in rest] if mapping else rest
+    return [ast.Assign(targets=[copy.deepcopy(target)], value=copy.deepcopy(elt), lineno=getattr(elt, "lineno", 1), col_offset=0)] + rest
+
+
+def _gen_loops(gen, env, inner, depth=0):
+    """statements that run `inner(elt)` once per element of the generator expression `gen`, in order (env: local name -> generator expression)"""
+    def level(i):
+        if i == len(gen.generators):
+            return inner(gen.elt)
+        g = gen.generators[i]
+        def body_after_binding():
+            rest = level(i + 1)
+            for c in reversed(g.ifs):
+                rest = [ast.If(test=copy.deepcopy(c), body=rest, orelse=[])]
+            return rest
+        src = g.iter
+        if isinstance(src, ast.Name) and src.id in env and depth < 4:
+            return _gen_loops(env[src.id], env, lambda elt2: _bind(g.target, elt2, body_after_binding()), depth + 1)
+        if isinstance(src, ast.GeneratorExp) and depth < 4:
+            return _gen_loops(src, env, lambda elt2: _bind(g.target, elt2, body_after_binding()), depth + 1)
+        return [ast.For(target=copy.deepcopy(g.target), iter=copy.deepcopy(src), body=body_after_binding(), orelse=[], type_comment=None)]
+    return level(0)
+
+
+def _specialise_helpers(P, anchors):
+    """a private helper (not part of the pinned API) that is fed a generator expression is expanded at its call sites: the helper's loop over the parameter
+    becomes the loop(s) of the generator expression with the helper's body inside, parameters replaced by the arguments.  When every call site of the
+    helper could be expanded the helper itself is dropped from the model."""
+    for ci in list(P.classes.values()):
+        mro = P.mro(ci.name)
+        for fn in list(ci.methods.values()):
+            _specialise_in(P, ci, mro, fn, anchors)
+    # drop helpers that are no longer called
+    called = set()
+    for m in P.modules.values():
+        for n in ast.walk(m.tree):
+            if isinstance(n, ast.Attribute):
+                called.add(n.attr)
+    for ci in P.classes.values():
+        for name in [k for k, f in ci.methods.items() if getattr(f, "_specialised", False) and k not in called]:
+            ci.node.body.remove(ci.methods[name])
+            del ci.methods[name]
+
+
+def _specialise_in(P, ci, mro, fn, anchors):
+    def local_gens(body_owner):
+        cnt, gens = {}, {}
+        for x in ast.walk(body_owner):
+            if isinstance(x, ast.Name) and isinstance(x.ctx, ast.Store):
+                cnt[x.id] = cnt.get(x.id, 0) + 1
+            if isinstance(x, ast.Assign) and len(x.targets) == 1 and isinstance(x.targets[0], ast.Name) and isinstance(x.value, ast.GeneratorExp):
+                gens[x.targets[0].id] = x
+        return {k: v for k, v in gens.items() if cnt.get(k) == 1}
+
+    def rewrite(body):
+        out = []
+        for st in body:
+            for f in ("body", "orelse", "finalbody"):
+                v = getattr(st, f, None)
+                if isinstance(v, list) and v and isinstance(v[0], ast.stmt):
+                    setattr(st, f, rewrite(v))
+            new = expand(st)
+            out += new if new is not None else [st]
+        return out
+
+    def expand(st):
+        if not (isinstance(st, ast.Expr) and isinstance(st.value, ast.Call)):
+            return None
+        call = st.value
+        f = call.func
+        if not (isinstance(f, ast.Attribute) and isinstance(f.value, ast.Name) and f.value.id == "self" and f.attr not in anchors):
+            return None
+        h = None
+        for c in mro:
+            if c in P.classes and f.attr in P.classes[c].methods:
+                h = P.classes[c].methods[f.attr]
+                break
+        if h is None or h is fn or h.decorator_list or h.args.vararg or h.args.kwarg or h.args.kwonlyargs:
+            return None
+        hbody = [s for s in h.body if not (isinstance(s, ast.Expr) and isinstance(s.value, ast.Constant))]
+        if any(isinstance(x, (ast.Return, ast.Yield, ast.YieldFrom, ast.Global, ast.Nonlocal)) for s in hbody for x in ast.walk(s)):
+            return None
+        params = [a.arg for a in h.args.args][1:]
+        bound = {}
+        for pn, a in zip(params, call.args):
+            bound[pn] = a
+        for k in call.keywords:
+            if k.arg is None or k.arg not in params:
+                return None
+            bound[k.arg] = k.value
+        for pn, d in zip(params[len(params) - len(h.args.defaults):], h.args.defaults):
+            bound.setdefault(pn, d)
+        if set(bound) != set(params) or len(call.args) > len(params):
+            return None
+        gens_here = local_gens(fn)
+        genargs = {}
+        for pn, a in bound.items():
+            if isinstance(a, ast.GeneratorExp):
+                genargs[pn] = a
+            elif isinstance(a, ast.Name) and a.id in gens_here:
+                genargs[pn] = gens_here[a.id].value
+            elif not isinstance(a, (ast.Constant, ast.Name, ast.Attribute)):
+                return None
+        if not genargs:
+            return None
+        env = {k: v.value for k, v in gens_here.items()}
+        body = copy.deepcopy(hbody)
+        # each generator parameter must be consumed by exactly one `for T in P:` and used nowhere else
+        for pn, g in genargs.items():
+            uses = [x for s in body for x in ast.walk(s) if isinstance(x, ast.Name) and x.id == pn]
+            loops = [x for s in body for x in ast.walk(s) if isinstance(x, ast.For) and isinstance(x.iter, ast.Name) and x.iter.id == pn and not x.orelse]
+            if len(uses) != 1 or len(loops) != 1:
+                return None
+        # helper locals must not clash with the caller's names
+        hl = _stores(body) - set(params)
+        caller_names = {x.id for x in ast.walk(fn) if isinstance(x, ast.Name)} | {a.arg for a in fn.args.args}
+        gen_names = {x.id for g in genargs.values() for x in ast.walk(g) if isinstance(x, ast.Name)}
+        ren = {n: ast.Name(id=n + "__" + h.name.strip("_"), ctx=ast.Load()) for n in hl if n in (caller_names - gen_names) and n not in _targets_of_param_loops(body, genargs)}
+        if ren:
+            class R(ast.NodeTransformer):
+                def visit_Name(self, n):
+                    if n.id in ren:
+                        return ast.copy_location(ast.Name(id=ren[n.id].id, ctx=n.ctx), n)
+                    return n
+            body = [R().visit(s) for s in body]
+
+        class ExpandLoops(ast.NodeTransformer):
+            def visit_For(self, n):
+                self.generic_visit(n)
+                if isinstance(n.iter, ast.Name) and n.iter.id in genargs:
+                    g = genargs[n.iter.id]
+                    stmts = _gen_loops(copy.deepcopy(g), env, lambda elt: _bind(n.target, copy.deepcopy(elt), n.body))
+                    return stmts
+                return n
+        new = []
+        for s in body:
+            r = ExpandLoops().visit(s)
+            new += r if isinstance(r, list) else [r]
+        mapping = {pn: a for pn, a in bound.items() if pn not in genargs}
+        new = [_NameSubst(mapping).visit(s) for s in new]
+        for s in new:
+            _loc(s, st)
+            ast.fix_missing_locations(s)
+        h._specialised = True
+        return new
+
+    fn.body = rewrite(fn.body)
+    # local generator expressions that are no longer referenced
+    gens_here = local_gens(fn)
+    if gens_here:
+        used = {x.id for x in ast.walk(fn) if isinstance(x, ast.Name) and isinstance(x.ctx, ast.Load)}
+        dead = [v for k, v in gens_here.items() if k not in used]
+        if dead:
+            class Drop(ast.NodeTransformer):
+                def visit_Assign(self, n):
+                    return ast.copy_location(ast.Pass(), n) if any(n is d for d in dead) else n
+            # repeat: a chain a -> b -> helper leaves `a` dead only after `b` is gone
+            for _ in range(4):
+                Drop().visit(fn)
+                gens_here = local_gens(fn)
+                used = {x.id for x in ast.walk(fn) if isinstance(x, ast.Name) and isinstance(x.ctx, ast.Load)}
+                dead = [v for k, v in gens_here.items() if k not in used]
+                if not dead:
+                    break
+    ast.fix_missing_locations(fn)
+
+
+def _targets_of_param_loops(body, genargs):
+    out = set()
+    for s in body:
+        for x in ast.walk(s):
+            if isinstance(x, ast.For) and isinstance(x.iter, ast.Name) and x.iter.id in genargs:
+                out |= {t.id for t in ast.walk(x.target) if isinstance(t, ast.Name)}
+    return out
+
+
+def _inline_expression_functions(P, anchors):
+    """a private module-level function whose body is a single `return <expression of its parameters>` is an expression macro: calls to it (by bare name,
+    in the same module) are replaced by that expression"""
+    for m in P.modules.values():
+        macros = {}
+        for st in m.tree.body:
+            if isinstance(st, ast.FunctionDef) and st.name not in anchors and not st.decorator_list and not st.args.vararg and not st.args.kwarg and not st.args.kwonlyargs:
+                body = [s for s in st.body if not (isinstance(s, ast.Expr) and isinstance(s.value, ast.Constant))]
+                if len(body) == 1 and isinstance(body[0], ast.Return) and body[0].value is not None:
+                    params = [a.arg for a in st.args.args]
+                    free = {x.id for x in ast.walk(body[0].value) if isinstance(x, ast.Name)} - set(params)
+                    # free names must be module-level / builtins (not locals): true for a one-statement function
+                    if not any(isinstance(x, (ast.Lambda, ast.Yield, ast.Await)) for x in ast.walk(body[0].value)):
+                        macros[st.name] = (params, st.args.defaults, body[0].value)
+        # names referenced other than as a call (passed around) disable the macro
+        if not macros:
+            continue
+        for x in ast.walk(m.tree):
+            if isinstance(x, ast.Call) and isinstance(x.func, ast.Name) and x.func.id in macros:
+                x._macro_call = True
+        funcs = {id(x.func) for x in ast.walk(m.tree) if isinstance(x, ast.Call) and isinstance(x.func, ast.Name)}
+        for x in ast.walk(m.tree):
+            if isinstance(x, ast.Name) and isinstance(x.ctx, ast.Load) and x.id in macros and id(x) not in funcs:
+                macros.pop(x.id, None)
+
+        class T(ast.NodeTransformer):
+            def visit_Call(self, n):
+                self.generic_visit(n)
+                if isinstance(n.func, ast.Name) and n.func.id in macros and not n.keywords:
+                    params, defaults, expr = macros[n.func.id]
+                    if len(n.args) == len(params) and all(not isinstance(a, ast.Starred) for a in n.args):
+                        # arguments used more than once must be cheap and pure
+                        mapping = dict(zip(params, n.args))
+                        for p, a in mapping.items():
+                            uses = sum(1 for y in ast.walk(expr) if isinstance(y, ast.Name) and y.id == p)
+                            if uses > 1 and any(isinstance(y, ast.Call) for y in ast.walk(a)):
+                                return n
+                        return _loc(_NameSubst(mapping).visit(copy.deepcopy(expr)), n)
+                return n
+        for st in m.tree.body:
+            if isinstance(st, ast.FunctionDef) and st.name in macros:
+                continue
+            T().visit(st)
+        ast.fix_missing_locations(m.tree)
+
+
+def normalise_program(P):
+    from .anchors import ANCHOR_METHODS
+    consts = _class_constants(P)
+    P.class_constants = consts
+    for ci in P.classes.values():
+        table = {}
+        for c in reversed(P.mro(ci.name)):
+            table.update(consts.get(c, {}))
+        own_attrs = set()
+        for fn in ci.methods.values():
+            t = _SelfConst(table)
+            t.visit(fn)
+            ast.fix_missing_locations(fn)
+    _inline_expression_functions(P, ANCHOR_METHODS | {k[1] for k in P.functions if not k[1].startswith("_")})
+    _specialise_helpers(P, ANCHOR_METHODS)
+    for m in P.modules.values():
+        for n in list(ast.walk(m.tree)):
+            if isinstance(n, ast.FunctionDef):
+                desugar_function(n)
